@@ -11,6 +11,7 @@ import (
 	"database/sql"
 	"encoding/hex"
 	"encoding/json"
+	"errors"
 	"fmt"
 	"os"
 	"os/exec"
@@ -82,6 +83,16 @@ func genSchema(t *simkit.Tape, seq *int) dsch {
 	for i := 0; i < n; i++ {
 		s.Tables = append(s.Tables, genTable(t, seq, s))
 	}
+	// Foreign keys from earlier to later tables close reference cycles.
+	for i := 0; i+1 < len(s.Tables); i++ {
+		if t.Chance("fk-cycle", 1, 3) {
+			*seq++
+			ref := s.Tables[i+1+t.Draw("cycle-ref", len(s.Tables)-i-1)].Name
+			col := dcol{Name: fmt.Sprintf("r%d", *seq), Kind: "int", Null: true}
+			s.Tables[i].Cols = append(s.Tables[i].Cols, col)
+			s.Tables[i].FKs = append(s.Tables[i].FKs, dfk{Name: fmt.Sprintf("f%d", *seq), Col: col.Name, Ref: ref})
+		}
+	}
 	return s
 }
 
@@ -137,6 +148,24 @@ func (s dsch) clone() dsch {
 // edit derives B from A with a few elementary edits.
 func edit(t *simkit.Tape, seq *int, a dsch) dsch {
 	b := a.clone()
+	if len(b.Tables) > 2 && t.Chance("drop-several-tables", 1, 4) {
+		// Dropping tables that reference each other makes the planners detach the cycle first.
+		keep := 1 + t.Draw("keep-tables", len(b.Tables)-2)
+		gone := map[string]bool{}
+		for _, tb := range b.Tables[keep:] {
+			gone[tb.Name] = true
+		}
+		b.Tables = b.Tables[:keep]
+		for j := range b.Tables {
+			var fks []dfk
+			for _, f := range b.Tables[j].FKs {
+				if !gone[f.Ref] {
+					fks = append(fks, f)
+				}
+			}
+			b.Tables[j].FKs = fks
+		}
+	}
 	for i, n := 0, t.Range("edits", 1, 4); i < n; i++ {
 		ti := t.Draw("edit-table", len(b.Tables))
 		tb := &b.Tables[ti]
@@ -268,7 +297,19 @@ func planOp(d dialect, a, b dsch, perm func(int) []int) *op {
 				return nil
 			}
 			plan, err = d.plan.PlanChanges(context.Background(), "p", changes)
-			return err
+			if err != nil {
+				return err
+			}
+			// `schema apply` plans the change set to show it and plans the same objects again to
+			// apply it: planning must not leave anything behind in its input.
+			again, err := d.plan.PlanChanges(context.Background(), "p", changes)
+			if err != nil {
+				return fmt.Errorf("planning the same changes a second time: %w", err)
+			}
+			if a, b := planText(plan), planText(again); a != b {
+				return fmt.Errorf("%w:\n--- first\n%s--- second\n%s", errReplan, a, b)
+			}
+			return nil
 		},
 		func() error {
 			plan.Version, plan.Name = "20240101000000", "p"
@@ -291,6 +332,17 @@ func planOp(d dialect, a, b dsch, perm func(int) []int) *op {
 		},
 	}
 	return o
+}
+
+var errReplan = errors.New("planning the same change set twice gives different statements")
+
+func planText(p *migrate.Plan) string {
+	var b strings.Builder
+	for _, c := range p.Changes {
+		b.WriteString(c.Cmd)
+		b.WriteString(";\n")
+	}
+	return b.String()
 }
 
 func hclOp(d dialect, a dsch) *op {
@@ -590,6 +642,10 @@ func C20(r *simkit.Run) {
 	base := sc.ops(nil)
 	for _, o := range base {
 		if err := o.run(); err != nil {
+			if errors.Is(err, errReplan) {
+				r.Fail(prop, "repeat", "replanning-same-changes-differs/"+o.name, "%s: %v", o.name, err)
+				return
+			}
 			simkit.Harnessf("operation %s fails on a generated scenario: %v", o.name, err)
 		}
 	}
